@@ -19,7 +19,7 @@ pub fn families() -> Vec<Family> {
             "1-64 concurrent callers/batches on one blocking Client vs. scripted server replying in seeded order with unknown-id and duplicate frames",
             c04_client,
         )
-        .runs(1_500, 60_000)
+        .runs(1_500, 90_000)
         .steps(600_000),
         Family::new(
             "c06_client",
@@ -27,7 +27,7 @@ pub fn families() -> Vec<Family> {
             "blocking Client with 0-16 calls in flight; server closes/resets/sends malformed frames at every protocol step; timeouts racing responses",
             c06_client,
         )
-        .runs(3_000, 120_000)
+        .runs(25_000, 1_500_000)
         .steps(600_000),
         Family::new(
             "c05_client",
@@ -35,7 +35,7 @@ pub fn families() -> Vec<Family> {
             "up to 32 concurrent writers on one blocking Client, tiny socket buffers, stalled reader, write timeouts; wire tap shape oracle",
             c05_client,
         )
-        .runs(1_500, 60_000)
+        .runs(1_200, 72_000)
         .steps(1_500_000),
     ]
 }
@@ -208,6 +208,13 @@ fn c04_client(case: &Case) {
         }
         if permuted {
             srv_case.probe("replies_out_of_arrival_order");
+        }
+        if answered.len() <= 6 && !answered.is_empty() {
+            // which of the k! reply orders this run exercised (arrival rank of each answered request)
+            let mut arrival: Vec<u64> = seen_ids.iter().copied().filter(|id| answered.iter().any(|a: &Frame| a.id == *id)).collect();
+            arrival.sort();
+            let perm: Vec<String> = answered.iter().map(|a| arrival.iter().position(|x| *x == a.id).unwrap_or(9).to_string()).collect();
+            srv_case.cover("reply_order(k<=6; 1+2+6+24+120+720=873 orders)", format!("{}:{}", answered.len(), perm.join("")));
         }
     });
 
